@@ -260,7 +260,20 @@ def finalRep (accTy : CT) (r : Rep) : Rep :=
 inductive Upd
   | plain (e : Expr)
   | cond (test a b : Expr)
+  /-- a conditional *inside* the lambda's body: `body` refers to the conditional's value through the operand in
+  slot `slot` (`(acc if acc > 0 else 0) + j.pt()`) -/
+  | condIn (slot : Nat) (test a b : Expr) (body : Expr)
   deriving Repr
+
+/-- give the operand in `slot` the type `t` -/
+def Expr.retypeAt (slot : Nat) (t : CT) : Expr → Expr
+  | .leaf t' s i => if i = slot then .leaf t s i else .leaf t' s i
+  | .int n => .int n
+  | .flt s i => .flt s i
+  | .bool b => .bool b
+  | .bin op l r => .bin op (l.retypeAt slot t) (r.retypeAt slot t)
+  | .un op e => .un op (e.retypeAt slot t)
+  | .cmp op l r => .cmp op (l.retypeAt slot t) (r.retypeAt slot t)
 
 structure AggOut where
   accTy : CT
@@ -284,6 +297,20 @@ def translateUpd (ifName : String) (ifSlot : Nat) : Upd → Except Refusal (Opti
         match translate b with
         | .error x => .error x
         | .ok br => .ok (some (tr, ar, br), ⟨condResultType, .leaf condResultType ifName ifSlot⟩)
+  | .condIn slot t a b body =>
+    match translate t with
+    | .error x => .error x
+    | .ok tr =>
+      match translate a with
+      | .error x => .error x
+      | .ok ar =>
+        match translate b with
+        | .error x => .error x
+        | .ok br =>
+          -- the body sees the conditional's result variable, which `visit_IfExp` types `double`
+          match translate (body.retypeAt slot condResultType) with
+          | .error x => .error x
+          | .ok r => .ok (some (tr, ar, br), r)
 
 /-- `visit_call_Aggregate_initial`: `seed` is the representation of the initial value, the update was
 translated with the accumulator typed as the seed. -/
@@ -627,6 +654,12 @@ def stepAggPy (rp : Bool) (u : Upd) (env : Env N) (acc : PV N) : Option (PV N) :
   match u with
   | .plain e => evalPy rp env1 (e.retype acc.ct)
   | .cond t a b => evalCondPy rp env1 (t.retype acc.ct) (a.retype acc.ct) (b.retype acc.ct)
+  | .condIn slot t a b body =>
+    match evalCondPy rp env1 (t.retype acc.ct) (a.retype acc.ct) (b.retype acc.ct) with
+    | none => none
+    | some r =>
+      let env2 : Env N := fun i => if i = slot then ⟨r.toI, r.toF, r.truthy⟩ else env1 i
+      evalPy rp env2 ((body.retype acc.ct).retypeAt slot r.ct)
 
 /-- `functools.reduce(lambda acc, v: upd, elems, seed)` -/
 def runAggPy (rp : Bool) (u : Upd) : PV N → List (Env N) → Option (PV N)
